@@ -37,6 +37,10 @@ func runC19(c *Ctx) {
 			{Kind: "dist-rmf", Persist: per, Sec: "g", PType: "g", FI: 1, Vals: []string{"admin"}},
 			{Kind: "dist-upd", Persist: per, Sec: "g", PType: "g", Rule: G[1], New: []string{"bob", "alice"}},
 			{Kind: "dist-clear", Persist: per},
+			// filters that name every field of the definition but leave one empty: the empty value is a wildcard, the
+			// filter selects every rule that carries the others (two p rules, two g rules)
+			{Kind: "dist-rmf", Persist: per, Sec: "p", PType: "p", FI: 0, Vals: []string{"", "data1", "read"}},
+			{Kind: "dist-rmf", Persist: per, Sec: "g", PType: "g", FI: 0, Vals: []string{"", "admin"}},
 			// grouping rules with a column beyond the role definition (legal: the link uses the first two): what is
 			// reported as affected, and what the next replica is handed, is the rule as given
 			{Kind: "dist-add", Persist: per, Sec: "g", PType: "g", Rules: [][]string{{"bob", "admin", "until-2027"}}},
